@@ -449,7 +449,9 @@ fn gen_vsign(ctx: &mut Ctx) {
     let walks = if thorough { 40 } else { 8 };
     let steps = if thorough { 3000 } else { 600 };
     for wk in 0..walks {
-        let own = *rng.pick(&[0u16, 3, 0x7F, 0xFFFF]);
+        // (every address class in every run, whatever the seed)
+        let _ = rng.pick(&[0u16, 3, 0x7F, 0xFFFF]);
+        let own = [0xFFFFu16, 3, 0, 0x7F, 0x0103, 0xFF00, 3, 0xFFFF][wk % 8];
         let style = if wk % 2 == 0 { PageFlipStyle::Manual } else { PageFlipStyle::Automatic };
         let alpha = alphabet(own, own.wrapping_add(1), true);
         let mut s = VirtualSign::new(Address(own), style);
